@@ -92,6 +92,34 @@ func fnPkgPath(fn *ssa.Function) string {
 }
 
 // closureField: name of the (single) field of a heap struct holding a closure.
+// storedResumption: the resumption closure a Bind run left in the coroutine state — whether as a field of a freshly
+// allocated step object (`c.step = &step{…}`), as a field of a step stored by value, or stored directly.
+func storedResumption(st *State, evs []Event) AV {
+	var found AV
+	for _, e := range evs {
+		if e.Kind != "store" || !strings.HasPrefix(e.Target, "c.") || len(e.Args) != 1 {
+			continue
+		}
+		switch v := e.Args[0].(type) {
+		case Closure:
+			found = v
+		case StructV:
+			for _, f := range v.Fields {
+				if cl, ok := f.(Closure); ok {
+					found = cl
+				}
+			}
+		default:
+			if ob := st.Obj(v); ob != nil {
+				if n := closureField(ob); n != "" {
+					found = ob.Fields[n]
+				}
+			}
+		}
+	}
+	return found
+}
+
 func closureField(o *Obj) string {
 	return fieldHolding(o, func(v AV) bool { _, ok := v.(Closure); return ok })
 }
@@ -374,6 +402,19 @@ func (s *seqRT) ruleSuspend() {
 		}
 		o := outs[0]
 		evs := observable(o.St.Events[len(st.Events):])
+		// how the pending step is kept in the coroutine state is the package's business: when the run does nothing
+		// but write that state in some other way (a value and a flag, helper methods), the same three facts are
+		// decided by observation, through the iterator Start returns
+		onlyState := true
+		for _, e := range o.St.Events[len(st.Events):] {
+			if e.Kind == "call" && e.Fn == nil || e.Kind == "store" && !strings.HasPrefix(e.Target, "c.") {
+				onlyState = false
+			}
+		}
+		if onlyState && !(len(evs) == 1 && evs[0].Kind == "store" && evs[0].Target == "c.step") {
+			s.suspendObserved(name)
+			continue
+		}
 		var stepRef AV
 		good := len(evs) == 1 && evs[0].Kind == "store" && evs[0].Target == "c.step"
 		if good {
@@ -436,17 +477,11 @@ func (s *seqRT) ruleSuspend() {
 			if len(o3) != 1 || o3[0].Panicked {
 				again = "the second run of the value is not a single path"
 			} else {
-				var step2 AV
-				for _, e := range observable(o3[0].St.Events[len(o2[0].St.Events):]) {
-					if e.Kind == "store" && e.Target == "c.step" && len(e.Args) == 1 {
-						step2 = e.Args[0]
-					}
-				}
-				obj2 := o3[0].St.Obj(step2)
-				if obj2 == nil || closureField(obj2) == "" {
+				next2 := storedResumption(o3[0].St, o3[0].St.Events[len(o2[0].St.Events):])
+				if next2 == nil {
 					again = "the second run of the value does not suspend by storing a step with a resumption"
 				} else {
-					o4 := in.Apply(o3[0].St, obj2.Fields[closureField(obj2)], []AV{Sym{Name: "recv2"}})
+					o4 := in.Apply(o3[0].St, next2, []AV{Sym{Name: "recv2"}})
 					if len(o4) != 1 || o4[0].Panicked {
 						again = "the resumption of the second run is not a single path"
 					} else {
@@ -461,6 +496,116 @@ func (s *seqRT) ruleSuspend() {
 		}
 		s.account(in)
 	}
+}
+
+// suspendObserved: SEQ.SUSPEND / SEQ.TAKE for a Bind / BindRecv whose pending step is not kept as `c.step = &step{…}`.
+// The term Bind(yv, f) is started; the first advance must deliver yv without calling f (suspension); the next one,
+// carrying a sent value, must call f exactly once — without arguments for Bind, with the sent value for BindRecv —
+// and then run the Seq it returns; when that completes the iterator is exhausted and reports the result. The same
+// term started a second time behaves the same (nothing is remembered from the first run).
+func (s *seqRT) suspendObserved(name string) {
+	c := s.c
+	fn := s.w.Func(pathSeq, name)
+	pos := s.w.FnPos(fn)
+	in := s.interp()
+	in.MaxDepth = 16
+	outs := in.Run(newState(), fn, []AV{Sym{Name: "yv", Uniq: true}, Sym{Name: "f", NN: true}}, nil)
+	if len(outs) != 1 || outs[0].Panicked || len(outs[0].Ret) != 1 {
+		c.bad("SEQ.SUSPEND", name+"(v,f) run", pos, "constructor is not a single path")
+		return
+	}
+	term, st := outs[0].Ret[0], outs[0].St
+	in.OnCall = func(cc *CallCtx) []Answer {
+		sy, ok := cc.Callee.(Sym)
+		if !ok {
+			return nil
+		}
+		switch epochRe.ReplaceAllString(sy.Name, "") {
+		case "f":
+			return []Answer{{Ret: []AV{Sym{Name: "rest", NN: true}}}}
+		case "rest":
+			if len(cc.Args) == 2 {
+				return []Answer{{Invoke: []Invocation{{Fn: cc.Args[1], Args: []AV{Sym{Name: "sig"}, Sym{Name: "res", Uniq: true}}}}}}
+			}
+		}
+		return nil
+	}
+	startFn := s.w.Func(pathSeq, "Start")
+	type obs struct{ callee, args string }
+	callsOf := func(st *State, from int) []obs {
+		var out []obs
+		for _, e := range st.Events[from:] {
+			if sy, ok := e.Callee.(Sym); ok && e.Kind == "call" && e.Fn == nil {
+				var as []string
+				for _, a := range e.Args {
+					as = append(as, argLabel(a))
+				}
+				out = append(out, obs{epochRe.ReplaceAllString(sy.Name, ""), strings.Join(as, ",")})
+			}
+		}
+		return out
+	}
+	run := func(st *State, tag string) (*State, string) {
+		so := in.Run(st, startFn, []AV{term}, nil)
+		if len(so) != 1 || so[0].Panicked || len(so[0].Ret) != 1 {
+			return nil, tag + "Start is not a single path"
+		}
+		it, ok := so[0].Ret[0].(Dyn)
+		if !ok {
+			return nil, tag + "Start does not return a concrete iterator"
+		}
+		m := s.methodsOf(it.T)
+		if m["MoveNext"] == nil || m["Send"] == nil || m["Current"] == nil || m["Result"] == nil {
+			return nil, tag + "the iterator lacks MoveNext / Send / Current / Result"
+		}
+		st1 := so[0].St
+		n0 := len(st1.Events)
+		o1 := in.Run(st1, m["MoveNext"], []AV{it.V}, nil)
+		if len(o1) != 1 || o1[0].Panicked || len(o1[0].Ret) != 1 {
+			return nil, tag + "the first advance is not a single path"
+		}
+		if b, known := asBool(o1[0].Ret[0]); !known || !b {
+			return nil, tag + "the first advance does not report a value (the term must suspend with its value)"
+		}
+		if cs := callsOf(o1[0].St, n0); len(cs) != 0 {
+			return nil, fmt.Sprintf("%sthe first advance calls %v: the thunk must not run before the iterator is resumed", tag, cs)
+		}
+		cu := in.Run(o1[0].St.clone(), m["Current"], []AV{it.V}, nil)
+		if len(cu) != 1 || cu[0].Panicked || len(cu[0].Ret) != 1 || argLabel(cu[0].Ret[0]) != "yv" {
+			return nil, tag + "the value delivered by the first advance is not the bound value"
+		}
+		n1 := len(o1[0].St.Events)
+		o2 := in.Run(o1[0].St, m["Send"], []AV{it.V, Sym{Name: "recv", Uniq: true}}, nil)
+		if len(o2) != 1 || o2[0].Panicked || len(o2[0].Ret) != 2 {
+			return nil, tag + "the resuming advance is not a single path"
+		}
+		wantArgs := ""
+		if name == "BindRecv" {
+			wantArgs = "recv"
+		}
+		cs := callsOf(o2[0].St, n1)
+		if len(cs) != 2 || cs[0] != (obs{"f", wantArgs}) || cs[1].callee != "rest" {
+			return nil, fmt.Sprintf("%sthe resuming advance runs %v; expected exactly f(%s) and then the Seq it returned", tag, cs, wantArgs)
+		}
+		if b, known := asBool(o2[0].Ret[1]); !known || b {
+			return nil, tag + "after the rest of the term completed the iterator still reports a value (the taken step is not cleared)"
+		}
+		re := in.Run(o2[0].St.clone(), m["Result"], []AV{it.V}, nil)
+		if len(re) != 1 || re[0].Panicked || len(re[0].Ret) != 1 || argLabel(re[0].Ret[0]) != "res" {
+			return nil, tag + "the result passed to the continuation is not the iterator's result"
+		}
+		return o2[0].St, ""
+	}
+	st1, why := run(st, "")
+	c.check(why == "" || !strings.Contains(why, "first advance"), "SEQ.SUSPEND", name+"(v,f) run", pos,
+		"observed through Start: the first advance delivers the bound value and calls neither the thunk nor the continuation (suspension)", why)
+	c.check(why == "", "SEQ.TAKE", name+" resumption", pos,
+		"observed through Start: the resuming advance calls the thunk exactly once (with the sent value for BindRecv, without for Bind), runs the Seq it returns on the same coroutine, and the taken step is gone afterwards", why)
+	if why == "" {
+		_, why2 := run(st1, "second run of the same term: ")
+		c.check(why2 == "", "SEQ.TAKE", name+" resumption, value run a second time", pos, "the same term started again suspends and resumes in the same way", why2)
+	}
+	s.account(in)
 }
 
 // ------------------------------------------------------------------ SEQ.START
